@@ -16,7 +16,7 @@ REPLAYS = os.path.join(VERIF, "replays")
 EVIDENCE = os.path.join(VERIF, "evidence")
 REPO = os.environ.get("VERIF_REPO", "/repo")
 GO = "go1.26.8"
-NCPU = os.cpu_count() or 4
+NCPU = int(os.environ.get("VERIF_CPUS") or os.cpu_count() or 4)
 
 GOENV = dict(os.environ, GOFLAGS="-mod=mod", GOPROXY="off", GOSUMDB="off", GOTOOLCHAIN="local",
              CGO_ENABLED=os.environ.get("CGO_ENABLED", "0"))
